@@ -119,6 +119,23 @@ pub fn run(arg: &str) -> (bool, String) {
                 Err(e) => push(Some(format!("makeCredential response: its own bytes are rejected: {e:?}"))),
             }
         }
+        // member values of every size: authenticator data with credential ids up to the 65535 bytes the constructor admits (C12),
+        // through both responses -- "deserialising those bytes yields an equal message"
+        "authdata-sizes" => {
+            use coset::{iana, CoseKeyBuilder};
+            use passkey_types::ctap2::AttestedCredentialData;
+            for id_len in [0usize, 16, 1023, 3964, 3965, 4096, 20000, 65535] {
+                let key = CoseKeyBuilder::new_ec2_pub_key(iana::EllipticCurve::P_256, vec![0x11; 32], vec![0x22; 32]).algorithm(iana::Algorithm::ES256).build();
+                let acd = AttestedCredentialData::new(Aaguid::new_empty(), vec![7; id_len], key).expect("id length within u16");
+                let data = AuthenticatorData::new("example.com", Some(9)).set_attested_credential_data(acd);
+                let want = data.to_vec();
+                let mcr = make_credential::Response { fmt: "none".into(), auth_data: data, att_stmt: Value::Map(vec![]), ep_att: None, large_blob_key: None, unsigned_extension_outputs: None };
+                match ciborium::de::from_reader::<make_credential::Response, _>(&ser(&mcr)[..]) {
+                    Ok(r) => if r.auth_data.to_vec() != want { push(Some(format!("makeCredential response with a {id_len}-byte credential id ({} bytes of authenticator data): reads back with different authenticator data", want.len()))) },
+                    Err(e) => push(Some(format!("makeCredential response with a {id_len}-byte credential id ({} bytes of authenticator data): its own bytes are rejected: {e:?}", want.len()))),
+                }
+            }
+        }
         "gi" => {
             let full = get_info::Response { versions: vec![get_info::Version::FIDO_2_0], extensions: Some(vec![get_info::Extension::Prf]), aaguid: Aaguid::new_empty(),
                 options: Some(get_info::Options::default()), max_msg_size: std::num::NonZeroU128::new(1200), pin_protocols: Some(vec![1]), transports: Some(vec![webauthn::AuthenticatorTransport::Internal]) };
